@@ -36,6 +36,8 @@ pub fn run(cfg: &RunCfg) -> Ctx {
     let mut c = cfg.clone();
     c.threads = 2;
     all.merge(par_cases(&c, "concurrent", cfg.n(400, 15_000), || (), |_, rng, ctx, _| concurrent(rng, ctx)));
+    all.merge(par_cases(&c, "race", cfg.n(60, 1500), || (), |_, rng, ctx, _| race_case(rng, ctx)));
+    all.floor("race.histories", 20);
     for k in ["seq.check_found", "seq.check_not_found", "seq.watch_not_found", "seq.watch_items", "seq.stream_ended_by_clear", "seq.coalesced_updates", "seq.redundant_set_then_change", "seq.set_then_clear_unpolled", "conc.histories_linearizable", "conc.watch_items"] {
         all.floor(k, 5);
     }
@@ -500,3 +502,98 @@ fn concurrent(rng: &mut Rng, ctx: &mut Ctx) {
 
 #[allow(dead_code)]
 fn _unused(_: HashMap<u8, u8>) {}
+
+// ------------------------------------------------------------------ forced interleavings (current-thread runtime)
+
+/// Burn `k` units of tokio's cooperative budget (128 per task poll) so that the next budgeted
+/// operations of this task (the lock acquisitions inside the reporter) yield at a chosen point.
+async fn burn_budget(k: usize) {
+    let (tx, mut rx) = tokio::sync::mpsc::unbounded_channel::<()>();
+    for _ in 0..k {
+        let _ = tx.send(());
+    }
+    for _ in 0..k {
+        let _ = rx.recv().await;
+    }
+}
+
+/// Two first-time registrations of the same service overlap (the first writer is made to yield
+/// somewhere inside `set_service_status`), a watcher subscribes in between.
+fn race_case(rng: &mut Rng, ctx: &mut Ctx) {
+    let k = if rng.chance(3, 4) { rng.urange(120, 130) } else { rng.urange(0, 135) };
+    let k2 = rng.urange(0, 3);
+    let (x, y) = (wire(st_of(rng.u64())), wire(st_of(rng.u64())));
+    let with_clear = rng.chance(1, 4);
+    ctx.begin("race", json!({"budget_burned_by_writer_A": k, "A_sets": x, "B_sets": y, "clear_first": with_clear}));
+    let rt = tokio::runtime::Builder::new_current_thread().enable_all().start_paused(true).build().expect("verif-harness-bug: rt");
+    let (mut reporter, server) = tonic_health::server::health_reporter();
+    let seed = rng.u64();
+    let out: Result<(Vec<i32>, bool, Option<i32>), String> = rt.block_on(async move {
+        if with_clear {
+            reporter.set_service_status("r", ServingStatus::Serving).await;
+            reporter.clear_service_status("r").await;
+        }
+        let ra = reporter.clone();
+        let rb = reporter.clone();
+        let to_status = |w: i32| match w { 0 => ServingStatus::Unknown, 1 => ServingStatus::Serving, _ => ServingStatus::NotServing };
+        let a = tokio::spawn(async move {
+            burn_budget(k).await;
+            ra.set_service_status("r", to_status(x)).await;
+        });
+        let b = tokio::spawn(async move {
+            burn_budget(k2).await;
+            rb.set_service_status("r", to_status(y)).await;
+        });
+        let srv = server.clone();
+        let w = tokio::spawn(async move {
+            let mut client = HealthClient::new(Loopback::new(srv, seed, 1 << 20));
+            // subscribe as soon as the service exists
+            let mut st = loop {
+                match client.watch(HealthCheckRequest { service: "r".into() }).await {
+                    Ok(r) => break r.into_inner(),
+                    Err(_) => tokio::task::yield_now().await,
+                }
+            };
+            let mut got = Vec::new();
+            let mut ended = false;
+            loop {
+                match tokio::time::timeout(std::time::Duration::from_millis(200), st.message()).await {
+                    Ok(Ok(Some(m))) => got.push(m.status),
+                    Ok(_) => {
+                        ended = true;
+                        break;
+                    }
+                    Err(_) => break, // quiet: the paused clock only advances when every task is idle
+                }
+            }
+            (got, ended)
+        });
+        let _ = a.await;
+        let _ = b.await;
+        let mut client = HealthClient::new(Loopback::new(server.clone(), seed, 1 << 20));
+        let fin = client.check(HealthCheckRequest { service: "r".into() }).await.ok().map(|r| r.get_ref().status);
+        let (got, ended) = w.await.map_err(|e| e.to_string())?;
+        Ok((got, ended, fin))
+    });
+    drop(rt);
+    match out {
+        Err(e) => ctx.violation("race-setup", e),
+        Ok((got, ended, fin)) => {
+            ctx.count("race.histories");
+            if fin.is_none() {
+                ctx.violation("check-not-found-after-set", "the service is NOT_FOUND although two writers set it and nobody cleared it afterwards".into());
+            }
+            if ended {
+                ctx.violation("watch-ended-while-registered", format!("a watch stream ended although the service was never cleared after subscription (reported {:?}, latest status {:?}, writer A yielded after burning {} budget units)", got, fin, k));
+            }
+            if let Some(bad) = got.iter().find(|v| **v != x && **v != y) {
+                ctx.violation("watch-reported-unset-status", format!("reported {} which neither writer set", bad));
+            }
+            if !ended && got.last().copied() != fin && fin.is_some() {
+                ctx.violation("watch-stale", format!("watcher last reported {:?} but the status is {:?} (reports {:?})", got.last(), fin, got));
+            }
+            ctx.distinct("race_outcomes", &format!("{:?}|{}|{:?}", got, ended, fin));
+            ctx.fingerprint(format!("race|k{}|{}", k.min(131) / 4, with_clear as u8), true);
+        }
+    }
+}
